@@ -22,7 +22,8 @@ RULE = (
     "(modules with 1-2 CFI procedures over 2-4 blocks: directives at block starts, instruction boundaries and block "
     "ends, remember/restore spanning blocks, personality/LSDA symbols, data between procedures) x all non-overlapping "
     "sets of <= N atoms {insert a patch without CFI / with balanced CFI at every boundary, delete/replace every "
-    "instruction, delete whole blocks with and without proxy}; a case is one apply(); non-trivial = a modification "
+    "instruction, delete whole blocks with and without proxy}; plus every balanced patch shape over {label, remember, "
+    "undefined, restore, instruction} of <= L tokens inserted at three sites inside procedures; a case is one apply(); non-trivial = a modification "
     "lands inside or on the boundary of a procedure; distinct by (module, mods)"
 )
 ASSUMPTIONS = [
@@ -162,6 +163,9 @@ def check(spec, mods):
         "r_deleted_cie_prefix": _deleted_cie_prefix(spec, mods),
         "r_patch_cfi": any(m["op"] in ("ins", "rep") and isinstance(m["p"], list) and any(t[0] == "cfi" for t in m["p"]) for m in mods),
     }
+    nlab = max([sum(1 for t in m["p"] if t[0] == "lab") for m in mods if m["op"] in ("ins", "rep") and isinstance(m["p"], list)] or [0])
+    if nlab:
+        roles["r_patch_labels"] = min(nlab, 3)
     # (1) still evaluates cleanly
     if err_obs is not None:
         diffs.append(C.D("cfi-no-longer-evaluates", where=err_obs, r_why=err_obs["why"], **roles))
@@ -175,8 +179,15 @@ def check(spec, mods):
         if rec["bk"] == "c" and rec["uid"][0] == "orig" and st_in.get(uid_in[rec["uid"]]) is not None:
             survivors_in_proc += 1
     vanishable = _vanishable(E, inp, st_in)
+    brought = {}
+    for mid, m in enumerate(mods):
+        if m["op"] in ("ins", "rep") and isinstance(m["p"], list) and not declined_outside_proc(st_exp, E, mid):
+            for t in m["p"]:
+                if t[0] == "cfi" and t[1] in Lg.REQUIRED_CFI:
+                    brought[t[1]] = brought.get(t[1], 0) + 1
     for name in Lg.REQUIRED_CFI:
-        a, b = cnt_in.get(name, 0), cnt_obs.get(name, 0)
+        # what the patches of the request bring themselves (a balanced remember/restore pair) is part of the edited listing
+        a, b = cnt_in.get(name, 0) + brought.get(name, 0), cnt_obs.get(name, 0)
         if a != b:
             # a procedure that no longer encloses any surviving instruction may vanish as a whole
             # (balanced start/end pair and whatever was inside it)
@@ -205,6 +216,15 @@ def check(spec, mods):
                     diffs.append(C.D("cfi-patch-coverage", at=list(k), r_expected_inside=st_exp.get(k) is not None, **roles))
     outcome = "ok" if not diffs else "diff:" + ",".join(sorted({d["kind"] for d in diffs}))
     return outcome, diffs, E
+
+
+def declined_outside_proc(st_exp, E, mid):
+    """a patch inserted outside any procedure cannot keep its directives (ASSUMPTIONS): its own
+    instructions are then outside a procedure in the edited listing as well"""
+    for k, rec in E.insns.items():
+        if rec["uid"][0] == "patch" and rec["uid"][1] == mid:
+            return st_exp.get(k) is None
+    return False
 
 
 def _deleted_cie_prefix(spec, mods):
@@ -349,6 +369,57 @@ def check_newfunc_cfi(name, bodies, mods):
     return ("ok" if not diffs else "diff"), diffs
 
 
+# ------------------------------------------------------------------ patches whose own directives sit around their own labels
+# shape string over L (a fresh temporary label), M (.cfi_remember_state), U (.cfi_undefined 3), S (.cfi_restore_state),
+# P (tagged instruction).  Every shape with properly nested M..S, U only inside, stack empty at the end ("balanced") and at
+# least one instruction and one M is generated: the assembler opens a block at every label, so directives written around
+# labels travel through its empty-block clean-up before the rewriter sees them.
+SHAPE_SITES = [("two-procs", "B", 1), ("two-procs", "A", 2), ("dense", "DN", 2)]
+SHAPE_LEN = {"quick": 6, "thorough": 7}
+
+
+def shapes(maxlen):
+    import itertools
+
+    out = []
+    for n in range(2, maxlen + 1):
+        for seq in itertools.product("LMUSP", repeat=n):
+            d = 0
+            ok = True
+            for c in seq:
+                if c == "M":
+                    d += 1
+                elif c == "S":
+                    d -= 1
+                    if d < 0:
+                        ok = False
+                        break
+                elif c == "U" and d < 1:
+                    ok = False
+                    break
+            if ok and d == 0 and "P" in seq and "M" in seq:
+                out.append("".join(seq))
+    return out
+
+
+def shape_patch(shape):
+    p = []
+    nl = 0
+    for c in shape:
+        if c == "L":
+            p.append(["lab", ".Ls%d" % nl])
+            nl += 1
+        elif c == "M":
+            p.append(["cfi", ".cfi_remember_state", []])
+        elif c == "U":
+            p.append(["cfi", ".cfi_undefined", [3]])
+        elif c == "S":
+            p.append(["cfi", ".cfi_restore_state", []])
+        else:
+            p.append(["p", 0])
+    return p
+
+
 NEWFUNC_CFI_CASES = [["cie-prefix"], ["late-directives"], ["two-procs"], ["no-cfi", "cie-prefix"], ["cie-prefix", "two-procs"]]
 
 
@@ -357,6 +428,9 @@ def tasks(tier):
     n = BOUNDS[tier]["set_size"]
     for name in ("two-procs", "personality"):
         t.append((name, "newfunc", None))
+    sh = shapes(SHAPE_LEN[tier])
+    for i in range(0, len(sh), 40):
+        t.append(("two-procs", "shapes", [SHAPE_LEN[tier], i, i + 40]))
     for name, spec in MODULES.items():
         na = len(atoms_for(spec))
         # split pairs by the first atom to spread over the cores
@@ -385,6 +459,17 @@ def run_task(task):
                 if diffs:
                     res.bad({"module": name, "newfunc": bodies, "mods": mods}, diffs)
             res.sample({"module": name, "newfunc": bodies, "mods": []}, cap=1)
+        return res
+    if n == "shapes":
+        ml, lo, hi = first
+        for shape in shapes(ml)[lo:hi]:
+            for mname, b, k in SHAPE_SITES:
+                mods = scen.retag([{"op": "ins", "b": b, "k": k, "p": shape_patch(shape)}])
+                outcome, diffs, E = check(MODULES[mname], mods)
+                res.case((mname, mods), nontrivial=True, outcome=outcome.split(";")[-1][:80])
+                if diffs:
+                    res.bad({"module": mname, "mods": mods}, diffs)
+            res.sample({"module": "two-procs", "shape": shape}, cap=1)
         return res
     atoms = atoms_for(spec)
     if first is None:
